@@ -67,7 +67,7 @@ ITEMS = _rebased(_m.ITEMS) + [
     Fn(RES, 'impl TryFrom<Residual> for Value > fn try_from', name='Value::try_from<Residual>', wrap='impl Value',
        sig_rewrites=[(r'fn try_from\(', 'fn try_from_residual(', 1), (r'Self::Error', '()', 1)],
        ensures=[('concrete', 'r is Ok <==> value is Concrete'), ('value', 'r is Ok ==> r->Ok_0 == value->Concrete_value')]),
-    Fn(EV, "impl Evaluator<'_> > fn interpret", name='Evaluator::interpret', wrap="impl Evaluator<'_>", attrs=NODEC, ret='out',
+    Fn(EV, "impl Evaluator<'_> > fn interpret", name='Evaluator::interpret', wrap="impl Evaluator<'_>", attrs=NODEC + ['verifier::spinoff_prover'], ret='out',
        ensures=[('sound_concrete', '!(*r is Partial) ==> sound(self, *r, out)'),
                 ('sound_var', '*r is Partial && r->Partial_kind is Var ==> sound(self, *r, out)'),
                 ('sound_and', '*r is Partial && r->Partial_kind is And ==> sound(self, *r, out)'),
@@ -84,6 +84,32 @@ ITEMS = _rebased(_m.ITEMS) + [
                 ('sound_record', '*r is Partial && r->Partial_kind is Record ==> sound(self, *r, out)'),
                 ],
        hints=[(r'ResidualKind::GetAttr \{ expr, attr \} => \{', 'let ghost subr = expr;'),
+              (r'let es: Vec<_> = vx_arc_vec_iter\(es\)\.map\(.*?\)\.collect\(\);', '''proof {
+                    let ins = list_of(r->Partial_kind);
+                    lemma_list_sound(self, ins, es@);
+                    lemma_ksem_set(r->Partial_kind->Set_0);
+                    lemma_tk_list(r->Partial_kind);
+                    assert forall|c: Cx| #[trigger] rsem(c, *r) == ksem(c, r->Partial_kind) by {}
+                    assert forall|c: Cx| #[trigger] types_ok(c, *r) == tk(c, r->Partial_kind) by {}
+                    assert forall|v: Arc<Vec<Residual>>| v@ == es@ implies forall|c: Cx| #[trigger] ksem(c, ResidualKind::Set(v)) == (if list_any_err(c, es@) { R::E } else if list_all_val(c, es@) { R::V(mk_set(list_vals(c, es@))) } else { R::U }) by { lemma_ksem_set(v); }
+                }
+                let ghost g_outs = es@;'''),
+              (r'let args: Vec<_> = vx_arc_vec_iter\(args\)\.map\(.*?\)\.collect\(\);', '''proof {
+                    let ins = list_of(r->Partial_kind);
+                    lemma_list_sound(self, ins, args@);
+                    lemma_ksem_ext(*fn_name, r->Partial_kind->args);
+                    lemma_tk_list(r->Partial_kind);
+                    assert forall|c: Cx| #[trigger] rsem(c, *r) == ksem(c, r->Partial_kind) by {}
+                    assert forall|c: Cx| #[trigger] types_ok(c, *r) == tk(c, r->Partial_kind) by {}
+                    assert forall|v: Arc<Vec<Residual>>| v@ == args@ implies forall|c: Cx| #[trigger] ksem(c, ResidualKind::ExtensionFunctionApp { fn_name: *fn_name, args: v }) == (if list_any_err(c, args@) { R::E } else { R::U }) by { lemma_ksem_ext(*fn_name, v); }
+                }
+                let ghost g_outs = args@;'''),
+              (r'let vals = vx_vec_into_iter\(es\)\.map\(.*?\}\s*\}\);', '''proof {
+                        assert forall|c: Cx| list_all_val(c, g_outs) && #[trigger] list_vals(c, g_outs) == kinds_of(vals.items()) by {
+                            assert forall|i: int| 0 <= i < g_outs.len() implies rsem(c, #[trigger] g_outs[i]) == R::V(kinds_of(vals.items())[i]) by { assert(g_outs[i] is Concrete); }
+                            assert(list_vals(c, g_outs) =~= kinds_of(vals.items()));
+                        }
+                    }'''),
               (r'ResidualKind::GetAttr \{ expr, attr \} => \{\s*let expr = self\.interpret\(expr\);', '''proof {
                     assert(r->Partial_kind->GetAttr_expr == *subr);
                     assert(sound(self, **subr, expr));
